@@ -78,11 +78,12 @@ package interpreter
 //@   assigns (bigcell (. n val))
 //@   ensures[C05.num_mul] (= (bigval (. n val)) (* (old (bigval (. n val))) (old (bigval (. o val)))))
 //@ func interpreter.(*scriptNumber).Div
+//@   opt reveal tdiv
 //@   requires (distinct (bigval (. o val)) 0)
 //@   assigns (bigcell (. n val))
 //@   ensures[C05.num_div] (= (bigval (. n val)) (spec.tdiv (old (bigval (. n val))) (old (bigval (. o val)))))
 //@ func interpreter.(*scriptNumber).Mod
-//@   opt reveal tmod
+//@   opt reveal tmod tdiv
 //@   requires (distinct (bigval (. o val)) 0)
 //@   assigns (bigcell (. n val))
 //@   ensures[C05.num_mod] (= (bigval (. n val)) (spec.tmod (old (bigval (. n val))) (old (bigval (. o val)))))
@@ -226,6 +227,8 @@ package interpreter
 //@   define (=> (= err nil) (= (bigval (. result val)) (num_of (bytes bb))))
 //@ func interpreter.(*scriptNumber).Bytes
 //@   define (= (bytes result) (enc_num (old (bigval (. n val)))))
+// assumed property of the number encoding: zero encodes as a false item, every other number as a true one
+//@   define (= (spec.truthy (bytes result)) (distinct (old (bigval (. n val))) 0))
 //@ func interpreter.(*stack).PopInt
 //@   opt forall-patterns 1
 //@   ensures[C05.popint] (=> (= err nil) (and (>= (old (len (. s stk))) 1) (= (len (. s stk)) (- (old (len (. s stk))) 1)) (= (bigval (. r0 val)) (num_of (old (bytes (at (. s stk) (- (len (. s stk)) 1))))))))
@@ -233,6 +236,7 @@ package interpreter
 //@ func interpreter.(*stack).PushInt
 //@   opt forall-patterns 1
 //@   ensures[C05.pushint] (and (= (len (. s stk)) (+ (old (len (. s stk))) 1)) (= (bytes (at (. s stk) (old (len (. s stk))))) (enc_num (old (bigval (. n val))))))
+//@   ensures[C05.pushint_truth] (= (spec.truthy (bytes (at (. s stk) (old (len (. s stk)))))) (distinct (old (bigval (. n val))) 0))
 //@   ensures[C05.pushint_rest] (forall ((k Int)) (=> (and (<= 0 k) (< k (old (len (. s stk))))) (= (at (. s stk) k) (old (at (. s stk) k)))))
 
 // arithmetic and comparison opcodes: stack effect over the abstract numbers (num_of / enc_num)
@@ -269,6 +273,8 @@ package interpreter
 //@ func interpreter.opcodeNumEqual
 //@   opt forall-patterns 1
 //@   ensures[C05.opcodeNumEqual] (=> (= err nil) (spec.stack_result t 2 (ite (= (old (spec.top_num t 1)) (old (spec.top_num t 0))) 1 0)))
+//@   ensures[C05.opcodeNumEqual_err] (= (= err nil) (and (>= (old (len (. t dstack stk))) 2) (old (spec.top_ok t 0)) (old (spec.top_ok t 1))))
+//@   ensures[C05.opcodeNumEqual_truth] (=> (= err nil) (= (spec.truthy (bytes (at (. t dstack stk) (- (len (. t dstack stk)) 1)))) (= (old (spec.top_num t 1)) (old (spec.top_num t 0)))))
 //@ func interpreter.opcodeNumNotEqual
 //@   opt forall-patterns 1
 //@   ensures[C05.opcodeNumNotEqual] (=> (= err nil) (spec.stack_result t 2 (ite (distinct (old (spec.top_num t 1)) (old (spec.top_num t 0))) 1 0)))
@@ -567,7 +573,7 @@ package interpreter
 // ---- C06 (partial): the encoding rules that the DER / low-S / strict-encoding flags switch on ----
 //@ func scriptflag.Flag.HasFlag
 //@   pure
-//@   ensures[C06.has_flag_bit] (=> (or (= flag 64) (= flag 128) (= flag 2048) (= flag 4096) (= flag 8192)) (= result (= (mod (div s flag) 2) 1)))
+//@   ensures[C06.has_flag_bit] (=> (or (= flag 4) (= flag 32) (= flag 64) (= flag 128) (= flag 2048) (= flag 4096) (= flag 8192)) (= result (= (mod (div s flag) 2) 1)))
 //@ func scriptflag.Flag.HasAny
 //@   bytes array
 //@   pure
@@ -575,7 +581,7 @@ package interpreter
 //@   loop 0 invariant (=> (and (= (len flags) 3) (= (at flags 0) 64) (= (at flags 1) 128) (= (at flags 2) 4096)) (and (=> (>= rangeindex 0) (not (= (mod (div s 64) 2) 1))) (=> (>= rangeindex 1) (not (= (mod (div s 128) 2) 1))) (=> (>= rangeindex 2) (not (= (mod (div s 4096) 2) 1)))))
 //@ func interpreter.(*thread).hasFlag
 //@   pure
-//@   ensures[C06.thread_has_flag] (=> (or (= flag 64) (= flag 128) (= flag 2048) (= flag 4096) (= flag 8192)) (= result (spec.flag_on t flag)))
+//@   ensures[C06.thread_has_flag] (=> (or (= flag 4) (= flag 32) (= flag 64) (= flag 128) (= flag 2048) (= flag 4096) (= flag 8192)) (= result (spec.flag_on t flag)))
 //@ func interpreter.(*thread).hasAny
 //@   bytes array
 //@   pure
@@ -607,3 +613,120 @@ package interpreter
 //@   bytes token
 //@   opt forall-patterns 1
 //@   ensures[C05.opcodeHash256] (and (= (= err nil) (>= (old (len (. t dstack stk))) 1)) (=> (= err nil) (spec.stack_res_bytes t 1 (bsha256d (old (spec.top_bytes t 0))))))
+
+// ---- C05 (continued): bitwise AND/OR/XOR/INVERT (elementwise over the byte cells), CAT, SPLIT ----
+//@ func interpreter.opcodeAnd
+//@   bytes array
+//@   opt index-fn 1
+//@   ensures[C05.opcodeAnd_err] (= (= err nil) (and (>= (old (len (. t dstack stk))) 2) (= (old (len (at (. t dstack stk) (- (len (. t dstack stk)) 1)))) (old (len (at (. t dstack stk) (- (len (. t dstack stk)) 2)))))))
+//@   ensures[C05.opcodeAnd] (=> (= err nil) (and (= (len (. t dstack stk)) (- (old (len (. t dstack stk))) 1)) (= (len (at (. t dstack stk) (- (len (. t dstack stk)) 1))) (old (len (at (. t dstack stk) (- (len (. t dstack stk)) 1))))) (forall ((i Int)) (=> (and (<= 0 i) (< i (len (at (. t dstack stk) (- (len (. t dstack stk)) 1))))) (= (at (at (. t dstack stk) (- (len (. t dstack stk)) 1)) i) (bitand (old (at (at (. t dstack stk) (- (len (. t dstack stk)) 1)) i)) (old (at (at (. t dstack stk) (- (len (. t dstack stk)) 2)) i)))))) (forall ((k Int)) (=> (and (<= 0 k) (< k (- (len (. t dstack stk)) 1))) (= (at (. t dstack stk) k) (old (at (. t dstack stk) k)))))))
+//@   loop 0 invariant (and (fresh c) (= (len c) (len a)) (= (len a) (len b)) (forall ((j Int)) (=> (and (<= 0 j) (<= j rangeindex)) (= (at c j) (bitand (at a j) (at b j))))))
+//@ func interpreter.opcodeOr
+//@   bytes array
+//@   opt index-fn 1
+//@   ensures[C05.opcodeOr_err] (= (= err nil) (and (>= (old (len (. t dstack stk))) 2) (= (old (len (at (. t dstack stk) (- (len (. t dstack stk)) 1)))) (old (len (at (. t dstack stk) (- (len (. t dstack stk)) 2)))))))
+//@   ensures[C05.opcodeOr] (=> (= err nil) (and (= (len (. t dstack stk)) (- (old (len (. t dstack stk))) 1)) (= (len (at (. t dstack stk) (- (len (. t dstack stk)) 1))) (old (len (at (. t dstack stk) (- (len (. t dstack stk)) 1))))) (forall ((i Int)) (=> (and (<= 0 i) (< i (len (at (. t dstack stk) (- (len (. t dstack stk)) 1))))) (= (at (at (. t dstack stk) (- (len (. t dstack stk)) 1)) i) (bitor (old (at (at (. t dstack stk) (- (len (. t dstack stk)) 1)) i)) (old (at (at (. t dstack stk) (- (len (. t dstack stk)) 2)) i)))))) (forall ((k Int)) (=> (and (<= 0 k) (< k (- (len (. t dstack stk)) 1))) (= (at (. t dstack stk) k) (old (at (. t dstack stk) k)))))))
+//@   loop 0 invariant (and (fresh c) (= (len c) (len a)) (= (len a) (len b)) (forall ((j Int)) (=> (and (<= 0 j) (<= j rangeindex)) (= (at c j) (bitor (at a j) (at b j))))))
+//@ func interpreter.opcodeXor
+//@   bytes array
+//@   opt index-fn 1
+//@   ensures[C05.opcodeXor_err] (= (= err nil) (and (>= (old (len (. t dstack stk))) 2) (= (old (len (at (. t dstack stk) (- (len (. t dstack stk)) 1)))) (old (len (at (. t dstack stk) (- (len (. t dstack stk)) 2)))))))
+//@   ensures[C05.opcodeXor] (=> (= err nil) (and (= (len (. t dstack stk)) (- (old (len (. t dstack stk))) 1)) (= (len (at (. t dstack stk) (- (len (. t dstack stk)) 1))) (old (len (at (. t dstack stk) (- (len (. t dstack stk)) 1))))) (forall ((i Int)) (=> (and (<= 0 i) (< i (len (at (. t dstack stk) (- (len (. t dstack stk)) 1))))) (= (at (at (. t dstack stk) (- (len (. t dstack stk)) 1)) i) (bitxor (old (at (at (. t dstack stk) (- (len (. t dstack stk)) 1)) i)) (old (at (at (. t dstack stk) (- (len (. t dstack stk)) 2)) i)))))) (forall ((k Int)) (=> (and (<= 0 k) (< k (- (len (. t dstack stk)) 1))) (= (at (. t dstack stk) k) (old (at (. t dstack stk) k)))))))
+//@   loop 0 invariant (and (fresh c) (= (len c) (len a)) (= (len a) (len b)) (forall ((j Int)) (=> (and (<= 0 j) (<= j rangeindex)) (= (at c j) (bitxor (at a j) (at b j))))))
+//@ func interpreter.opcodeInvert
+//@   bytes array
+//@   opt index-fn 1
+//@   ensures[C05.opcodeInvert_err] (= (= err nil) (>= (old (len (. t dstack stk))) 1))
+//@   ensures[C05.opcodeInvert] (=> (= err nil) (and (= (len (. t dstack stk)) (old (len (. t dstack stk)))) (= (len (at (. t dstack stk) (- (len (. t dstack stk)) 1))) (old (len (at (. t dstack stk) (- (len (. t dstack stk)) 1))))) (forall ((i Int)) (=> (and (<= 0 i) (< i (len (at (. t dstack stk) (- (len (. t dstack stk)) 1))))) (= (at (at (. t dstack stk) (- (len (. t dstack stk)) 1)) i) (bitxor (old (at (at (. t dstack stk) (- (len (. t dstack stk)) 1)) i)) 255)))) (forall ((k Int)) (=> (and (<= 0 k) (< k (- (len (. t dstack stk)) 1))) (= (at (. t dstack stk) k) (old (at (. t dstack stk) k)))))))
+//@   loop 0 invariant (and (fresh baInverted) (= (len baInverted) (len ba)) (forall ((j Int)) (=> (and (<= 0 j) (<= j rangeindex)) (= (at baInverted j) (bitxor (at ba j) 255)))))
+//@ func interpreter.opcodeCat
+//@   bytes token
+//@   opt index-fn 1
+//@   ensures[C05.opcodeCat] (=> (= err nil) (spec.stack_res_bytes t 2 (bcat (old (spec.top_bytes t 1)) (old (spec.top_bytes t 0)))))
+//@ func interpreter.opcodeSplit
+//@   bytes token
+//@   opt index-fn 1
+//@   ensures[C05.opcodeSplit] (=> (= err nil) (and (>= (old (len (. t dstack stk))) 2) (= (len (. t dstack stk)) (old (len (. t dstack stk)))) (<= 0 (old (spec.top_num t 0))) (<= (old (spec.top_num t 0)) (old (len (at (. t dstack stk) (- (len (. t dstack stk)) 2))))) (= (bytes (at (. t dstack stk) (- (len (. t dstack stk)) 2))) (bsub (old (spec.top_bytes t 1)) 0 (old (spec.top_num t 0)))) (= (bytes (at (. t dstack stk) (- (len (. t dstack stk)) 1))) (bsub (old (spec.top_bytes t 1)) (old (spec.top_num t 0)) (old (len (at (. t dstack stk) (- (len (. t dstack stk)) 2)))))) (forall ((k Int)) (=> (and (<= 0 k) (< k (- (len (. t dstack stk)) 2))) (= (at (. t dstack stk) k) (old (at (. t dstack stk) k)))))))
+
+// ---- C05 (continued): conditional execution (effect on the condition stack) ----
+//@ func interpreter.(*thread).isBranchExecuting
+//@   bytes array
+//@   pure
+//@   ensures[C05.branch_executing] (= result (spec.branch_exec t))
+//@ func interpreter.(*thread).shouldExec
+//@   bytes array
+//@   pure
+//@   ensures[C05.should_exec] (= result (spec.should_exec t (. pop op val)))
+//@   loop 0 invariant (and cf (forall ((k Int)) (=> (and (<= 0 k) (<= k rangeindex)) (distinct (at (. t condStack) k) 0))))
+//@ func interpreter.opcodeElse
+//@   bytes array
+//@   ensures[C05.opcodeElse] (=> (= err nil) (and (>= (old (len (. t condStack))) 1) (= (len (. t condStack)) (old (len (. t condStack)))) (= (spec.cond_last t) (ite (= (old (spec.cond_last t)) 1) 0 (ite (= (old (spec.cond_last t)) 0) 1 (old (spec.cond_last t))))) (forall ((k Int)) (=> (and (<= 0 k) (< k (- (len (. t condStack)) 1))) (= (at (. t condStack) k) (old (at (. t condStack) k)))))))
+//@   ensures[C05.opcodeElse_unbalanced] (=> (= (old (len (. t condStack))) 0) (distinct err nil))
+//@ func interpreter.opcodeEndif
+//@   bytes array
+//@   ensures[C05.opcodeEndif] (=> (= err nil) (and (>= (old (len (. t condStack))) 1) (= (len (. t condStack)) (- (old (len (. t condStack))) 1)) (forall ((k Int)) (=> (and (<= 0 k) (< k (len (. t condStack)))) (= (at (. t condStack) k) (old (at (. t condStack) k)))))))
+//@   ensures[C05.opcodeEndif_unbalanced] (=> (= (old (len (. t condStack))) 0) (distinct err nil))
+//@ func interpreter.popIfBool
+//@   bytes token
+//@   opt forall-patterns 1
+//@   ensures[C05.popifbool] (=> (= err nil) (and (>= (old (len (. t dstack stk))) 1) (= r0 (spec.truthy (old (spec.top_bytes t 0))))))
+//@   ensures[C05.popifbool_cond_untouched] (and (= (. t condStack) (old (. t condStack))) (forall ((k Int)) (=> (and (<= 0 k) (< k (old (len (. t condStack))))) (= (at (. t condStack) k) (old (at (. t condStack) k))))))
+//@ func interpreter.opcodeIf
+//@   bytes token
+//@   ensures[C05.opcodeIf] (=> (= err nil) (and (= (len (. t condStack)) (+ (old (len (. t condStack))) 1)) (forall ((k Int)) (=> (and (<= 0 k) (< k (old (len (. t condStack))))) (= (at (. t condStack) k) (old (at (. t condStack) k))))) (=> (not (old (spec.should_exec t (. op op val)))) (= (spec.cond_last t) 0)) (=> (and (old (spec.should_exec t (. op op val))) (not (old (spec.branch_exec t)))) (= (spec.cond_last t) 2)) (=> (and (old (spec.should_exec t (. op op val))) (old (spec.branch_exec t))) (and (>= (old (len (. t dstack stk))) 1) (= (spec.cond_last t) (ite (spec.truthy (old (spec.top_bytes t 0))) 1 0))))))
+//@ func interpreter.opcodeNotIf
+//@   bytes token
+//@   ensures[C05.opcodeNotIf] (=> (= err nil) (and (= (len (. t condStack)) (+ (old (len (. t condStack))) 1)) (forall ((k Int)) (=> (and (<= 0 k) (< k (old (len (. t condStack))))) (= (at (. t condStack) k) (old (at (. t condStack) k))))) (=> (not (old (spec.should_exec t (. op op val)))) (= (spec.cond_last t) 0)) (=> (and (old (spec.should_exec t (. op op val))) (not (old (spec.branch_exec t)))) (= (spec.cond_last t) 2)) (=> (and (old (spec.should_exec t (. op op val))) (old (spec.branch_exec t))) (and (>= (old (len (. t dstack stk))) 1) (= (spec.cond_last t) (ite (spec.truthy (old (spec.top_bytes t 0))) 0 1))))))
+
+// ---- C05 (continued): the other hash opcodes. calcHash(buf, h) = h.Write(buf); h.Sum(nil): for a fresh RIPEMD-160 state
+// (ghost tag hkind = 1, set by ripemd160.New) that is RIPEMD160(buf) - an assumed definition of the hash.Hash interface ----
+//@ func interpreter.calcHash
+//@   bytes token
+//@   define (=> (= (hkind hasher) 1) (= (bytes result) (bripemd160 (old (bytes buf)))))
+//@ func interpreter.opcodeSha256
+//@   bytes token
+//@   opt index-fn 1
+//@   ensures[C05.opcodeSha256] (and (= (= err nil) (>= (old (len (. t dstack stk))) 1)) (=> (= err nil) (spec.stack_res_bytes t 1 (bsha256 (old (spec.top_bytes t 0))))))
+//@ func interpreter.opcodeSha1
+//@   bytes token
+//@   opt index-fn 1
+//@   ensures[C05.opcodeSha1] (and (= (= err nil) (>= (old (len (. t dstack stk))) 1)) (=> (= err nil) (spec.stack_res_bytes t 1 (bsha1 (old (spec.top_bytes t 0))))))
+//@ func interpreter.opcodeRipemd160
+//@   bytes token
+//@   opt index-fn 1
+//@   ensures[C05.opcodeRipemd160] (and (= (= err nil) (>= (old (len (. t dstack stk))) 1)) (=> (= err nil) (spec.stack_res_bytes t 1 (bripemd160 (old (spec.top_bytes t 0))))))
+//@ func interpreter.opcodeHash160
+//@   bytes token
+//@   opt index-fn 1
+//@   ensures[C05.opcodeHash160] (and (= (= err nil) (>= (old (len (. t dstack stk))) 1)) (=> (= err nil) (spec.stack_res_bytes t 1 (bripemd160 (bsha256 (old (spec.top_bytes t 0)))))))
+// OP_RETURN: an error before Genesis; after Genesis it marks the early return and ends the script successfully (the
+// non-nil "success" value) unless a conditional is open. OP_NOP family: no effect; NOP1, NOP4..NOP10 fail exactly under the
+// discourage-upgradable-NOPs flag (bit 4)
+//@ func interpreter.opcodeReturn
+//@   ensures[C05.opcodeReturn] (and (= (= err nil) (and (. t afterGenesis) (> (len (. t condStack)) 0))) (=> (. t afterGenesis) (. t earlyReturnAfterGenesis)) (= (. t dstack stk) (old (. t dstack stk))) (= (. t condStack) (old (. t condStack))))
+//@ func interpreter.opcodeNop
+//@   ensures[C05.opcodeNop] (and (= (= err nil) (not (and (or (= (. op op val) 176) (and (<= 179 (. op op val)) (<= (. op op val) 185))) (= (mod (div (. t flags) 4) 2) 1)))) (= (. t dstack stk) (old (. t dstack stk))) (= (. t astack stk) (old (. t astack stk))) (= (. t condStack) (old (. t condStack))))
+//@ func interpreter.opcodeNumEqualVerify
+//@   bytes token
+//@   opt index-fn 1
+//@   ensures[C05.opcodeNumEqualVerify_err] (= (= err nil) (and (>= (old (len (. t dstack stk))) 2) (old (spec.top_ok t 0)) (old (spec.top_ok t 1)) (= (old (spec.top_num t 0)) (old (spec.top_num t 1)))))
+//@   ensures[C05.opcodeNumEqualVerify] (=> (= err nil) (and (= (len (. t dstack stk)) (- (old (len (. t dstack stk))) 2)) (forall ((k Int)) (=> (and (<= 0 k) (< k (len (. t dstack stk)))) (= (at (. t dstack stk) k) (old (at (. t dstack stk) k)))))))
+// ---- C05 (continued): the dispatcher. Opcodes in a non-executing branch have no effect on the stacks or the condition
+// stack unless they are conditionals; the disabled opcodes OP_2MUL / OP_2DIV always fail before Genesis and, after it,
+// whenever they would be executed ----
+//@ func interpreter.(*ParsedOpcode).IsConditional
+//@   pure
+//@   ensures[C05.is_conditional] (= result (and (<= 99 (. o op val)) (<= (. o op val) 104)))
+//@ func interpreter.(*ParsedOpcode).IsDisabled
+//@   pure
+//@   ensures[C05.is_disabled] (= result (or (= (. o op val) 141) (= (. o op val) 142)))
+//@ func interpreter.(*thread).executeOpcode
+//@   bytes array
+//@   ensures[C05.exec_skipped_no_effect] (=> (and (= err nil) (not (old (spec.branch_exec t))) (not (and (<= 99 (. pop op val)) (<= (. pop op val) 104)))) (and (= (. t dstack stk) (old (. t dstack stk))) (= (. t astack stk) (old (. t astack stk))) (= (. t condStack) (old (. t condStack)))))
+//@   ensures[C05.exec_disabled] (=> (and (or (= (. pop op val) 141) (= (. pop op val) 142)) (or (not (. t afterGenesis)) (old (spec.should_exec t (. pop op val))))) (distinct err nil))
+// the final verdict: success exactly when the data stack is non-empty, its top item is true and - for the final script under
+// the clean-stack flag (bit 32) - it is the only item
+//@ func interpreter.(*thread).CheckErrorCondition
+//@   bytes token
+//@   opt index-fn 1
+//@   ensures[C05.final_verdict] (= (= err nil) (and (>= (old (len (. t dstack stk))) 1) (=> (and finalScript (old (spec.flag_on t 32))) (= (old (len (. t dstack stk))) 1)) (spec.truthy (old (spec.top_bytes t 0)))))
